@@ -209,11 +209,11 @@ def run(repo, chk):
             chk.ok('C08.L1', fn, 'all paths linear')
     chk.count('paths_simulated', n_paths)
     chk.count('bubble_productions', n_prod)
-    chk.floor('bubble productions simulated', n_prod, 500)
+    chk.floor('bubble productions simulated', n_prod, 300)
 
     # ---------------- L2 ------------------------------------------------------------
-    for arm, want in (('ReturnStatement', '0'), ('BreakStatement', 'info.restore_point.array_num'),
-                      ('ContinueStatement', 'info.restore_point.array_num')):
+    for arm, want in (('ReturnStatement', '0'), ('BreakStatement', '<array count recorded at loop entry>'),
+                      ('ContinueStatement', '<array count recorded at loop entry>')):
         bad = None
         n = 0
         for p, ev in gf.inlined('gen_stmts'):
@@ -226,7 +226,12 @@ def run(repo, chk):
             its = [e for e in tail if (e.kind == 'emit' and e.ctor != 'asm.Metadata') or e.kind == 'sub']
             rs = [k for k, e in enumerate(its) if e.kind == 'sub' and e.func == 'self.reset_ap']
             js = [k for k, e in enumerate(its) if e.kind == 'emit' and e.ctor == 'asm.Jump' and src(e.args[0]) != 'stdlib.nonlocal_preempt']
-            if len(rs) != 1 or src(its[rs[0]].args[0]) != want or not js or rs[0] > js[-1]:
+            def arg_ok(k):
+                a = src(its[k].args[0])
+                if arm == 'ReturnStatement':
+                    return a == '0'
+                return gf.loop_read(a, ev, ev.index(its[k])) == 'arrays.count'
+            if len(rs) != 1 or not arg_ok(rs[0]) or not js or rs[0] > js[-1]:
                 bad = f'expected reset_ap({want}) before the exit goto; found {[src(its[k].args[0]) for k in rs]}'
                 break
             # arrays are released only after everything that may still read them: the return value is evaluated first
@@ -244,7 +249,7 @@ def run(repo, chk):
         for i, e in enumerate(ev):
             if e.kind == 'sub' and e.func == 'self.bool_expr_branch' and idx['cond'] is None:
                 idx['cond'] = i
-            elif e.kind == 'call' and e.func == 'LoopInfo':
+            elif e.kind == 'call' and e.func in ('.append', '.appendleft') and e.recv is not None and src(e.recv) == 'self.loop_info':
                 idx['info'] = i
             elif e.kind == 'sub' and e.func == 'self.gen_block' and src(e.args[0]) == 'block.body':
                 idx['body'] = i
